@@ -1,4 +1,4 @@
-import CollectionsC.Proofs.ArrayStep
+import CollectionsC.Proofs.ArrayMem
 /-! # C01 — the dynamic array `CC_Array` behaves as an ideal sequence
 
 Statements only (helpers: `Proofs/Array*.lean`).  Concrete model `CC.Arr` (`Model/Array.lean`):
@@ -23,7 +23,9 @@ open CC.Spec.Seq (Cfg Op Out)
 blocked (`CC_ERR_ALLOC` / `CC_ERR_MAX_CAPACITY`, possible only for `add`, `add_at`,
 `trim_capacity`); then report (status, out-value, callback log) and content agree, the
 configuration is kept, the invariant is preserved, the ledger is balanced, nothing faults, and a call
-reporting any error status leaves the whole physical state unchanged. -/
+reporting any error status leaves the whole physical state unchanged.  The last two conjuncts pin the
+`blocked` oracle down: a call is blocked with `CC_ERR_ALLOC` only when the allocator refused its
+request, with `CC_ERR_MAX_CAPACITY` only on a full array at the capacity limit. -/
 theorem step_refines (cfg : Cfg) (a : Arr) (op : Op) (m : Mem) (hinv : a.Inv)
     (hsort : ∀ xs, (cfg.sortFn xs).length = xs.length) :
     (a.step cfg op m).1 = (Spec.Seq.step cfg a.abs op (a.step cfg op m).1.blocked).1 ∧
@@ -31,8 +33,11 @@ theorem step_refines (cfg : Cfg) (a : Arr) (op : Op) (m : Mem) (hinv : a.Inv)
     (a.step cfg op m).2.1.grow = a.grow ∧
     (a.step cfg op m).2.1.Inv ∧
     (a.step cfg op m).2.2.live = m.live ∧ (a.step cfg op m).2.2.fault = m.fault ∧
-    (∀ st, (a.step cfg op m).1.st = some st → st ≠ .ok → (a.step cfg op m).2.1 = a) :=
-  Arr.step_spec cfg a op m hinv hsort
+    (∀ st, (a.step cfg op m).1.st = some st → st ≠ .ok → (a.step cfg op m).2.1 = a) ∧
+    ((a.step cfg op m).1.blocked = some .errAlloc → (m.allocT a.triple).1 = false) ∧
+    ((a.step cfg op m).1.blocked = some .errMaxCapacity → a.AtLimit ∧ a.size = a.capacity) := by
+  obtain ⟨s1, s2, s3, s4, s5, s6, s7⟩ := Arr.step_spec cfg a op m hinv hsort
+  exact ⟨s1, s2, s3, s4, s5, s6, s7, Arr.step_blocked cfg a op m hinv⟩
 
 /-- **C01, all histories, all allocator schedules.**  Running any history on the concrete array
 yields exactly the reports of the ideal list run on the same history (the ideal list being told
@@ -48,7 +53,7 @@ theorem history_refines (cfg : Cfg) (ops : List Op) (a : Arr) (m : Mem) (hinv : 
   | nil => exact ⟨rfl, rfl, hinv, rfl, rfl, rfl⟩
   | cons op ops ih =>
     obtain ⟨s1, s2, s3, s4, s5, s6, _⟩ := step_refines cfg a op m hinv hsort
-    have ih' := ih (a.step cfg op m).2.1 (a.step cfg op m).2.2 s4 (by omega)
+    have ih' := ih (a.step cfg op m).2.1 (a.step cfg op m).2.2 s4
     obtain ⟨i1, i2, i3, i4, i5, i6⟩ := ih'
     simp only [Arr.run, Spec.Seq.run, List.map_cons, List.headD_cons, List.tail_cons]
     rw [← s2]
@@ -79,7 +84,7 @@ A7): `add` can only be blocked on an exactly full array, and then only by a refu
 at the capacity limit (`Arr.AtLimit`: the requested capacity would need more than `CC_MAX_ELEMENTS`
 bytes, A10).  No assumption on the growth function. -/
 theorem add_succeeds (a : Arr) (x : Nat) (m : Mem) (hinv : a.Inv)
-    (halloc : a.size = a.capacity → m.alloc.1 = true) (hmax : ¬ a.AtLimit) :
+    (halloc : a.size = a.capacity → (m.allocT a.triple).1 = true) (hmax : ¬ a.AtLimit) :
     (a.add x m).1 = .ok ∧ (a.add x m).2.1.abs = a.abs ++ [x] := by
   rcases (Arr.add_spec a x m hinv).1 with ⟨ok, habs, _⟩ | ⟨⟨hb, hfull⟩, _⟩
   · exact ⟨ok, habs⟩
@@ -89,7 +94,7 @@ theorem add_succeeds (a : Arr) (x : Nat) (m : Mem) (hinv : a.Inv)
 
 /-- the same for `add_at` at every legal position -/
 theorem addAt_succeeds (a : Arr) (x i : Nat) (m : Mem) (hinv : a.Inv) (hi : i ≤ a.size)
-    (halloc : a.size = a.capacity → m.alloc.1 = true) (hmax : ¬ a.AtLimit) :
+    (halloc : a.size = a.capacity → (m.allocT a.triple).1 = true) (hmax : ¬ a.AtLimit) :
     (a.addAt x i m).1 = .ok ∧ (a.addAt x i m).2.1.abs = a.abs.insertIdx i x := by
   rcases (Arr.addAt_spec a x i m hinv).1 with ⟨_, sp⟩ | ⟨hgt, _⟩
   · rcases sp with ⟨ok, habs, _⟩ | ⟨⟨hb, hfull⟩, _⟩
@@ -115,29 +120,107 @@ theorem trim_keeps_content (a : Arr) (m : Mem) (hinv : a.Inv) :
   · exact ⟨h1, h2⟩
   · rw [h]; exact ⟨rfl, rfl⟩
 
-/-- **C01 from the constructor**: every history on an array built by `cc_array_new_conf` with any
-capacity the constructor accepts and any expansion factor behaves like the ideal list starting
-empty. -/
-theorem new_history_refines (cfg : Cfg) (cap : Nat) (grow : Nat → Nat) (exGe : Nat → Bool) (m0 : Mem)
-    (a0 : Arr) (hnew : (Arr.new cap grow exGe m0).2.1 = some a0) (ops : List Op)
+/-- **C01 from the constructor**, either allocator triple (`cc_array_new_conf` with the caller's
+allocators, or `cc_array_new` on the C library): every history on an array built with any capacity
+the constructor accepts and any expansion factor behaves like the ideal list starting empty; the
+array keeps exactly its two blocks of that triple, and the other allocator is never touched. -/
+theorem new_history_refines (cfg : Cfg) (cap : Nat) (grow : Nat → Nat) (exGe : Nat → Bool) (m0 : Mem) (t : Triple)
+    (a0 : Arr) (hnew : (Arr.new cap grow exGe m0 t).2.1 = some a0) (ops : List Op)
     (hsort : ∀ xs, (cfg.sortFn xs).length = xs.length) :
-    let m1 := (Arr.new cap grow exGe m0).2.2
+    let m1 := (Arr.new cap grow exGe m0 t).2.2
     (a0.run cfg ops m1).1 = (Spec.Seq.run cfg [] ops ((a0.run cfg ops m1).1.map Out.blocked)).1 ∧
     (a0.run cfg ops m1).2.1.abs = (Spec.Seq.run cfg [] ops ((a0.run cfg ops m1).1.map Out.blocked)).2 ∧
-    (a0.run cfg ops m1).2.1.Inv ∧ (a0.run cfg ops m1).2.2.live = m0.live + 2 ∧
-    (a0.run cfg ops m1).2.2.fault = m0.fault := by
+    (a0.run cfg ops m1).2.1.Inv ∧ Arr.own t (a0.run cfg ops m1).2.2 = Arr.own t m0 + 2 ∧
+    (a0.run cfg ops m1).2.2.fault = m0.fault ∧ a0.triple = t := by
   intro m1
-  rcases Arr.new_spec cap grow exGe m0 with ⟨_, h, _⟩ | ⟨_, h, _⟩ | ⟨_, _, r, h1, h2, h3, h4, h5, h6, h7⟩
+  rcases Arr.new_spec cap grow exGe m0 t with ⟨_, h, _⟩ | ⟨_, h, _⟩ | ⟨_, ha2, r, h1, h2, h3, h4, h5, h6, h7⟩
   · rw [h] at hnew; simp at hnew
   · rw [h] at hnew; simp at hnew
   · rw [h1] at hnew
     simp only [Option.some.injEq] at hnew
     subst hnew
-    have := history_refines cfg ops r m1 h3 (by show 0 < (Arr.new cap grow exGe m0).2.2.live; omega)
-      hsort
+    have htr : r.triple = t := by
+      by_cases hv : cap = 0 ∨ exGe (Gen.CC_MAX_ELEMENTS / cap) = true ∨ cap > Gen.CC_MAX_ELEMENTS / 8
+      · rw [Arr.new_invalid_eq cap grow exGe m0 t hv] at h1; simp at h1
+      · rw [Arr.new_eq cap grow exGe m0 t (fun h => hv (Or.inl h)) (fun h => hv (Or.inr (Or.inl h)))
+          (fun h => hv (Or.inr (Or.inr h)))] at h1
+        simp only [ha2, if_true, Option.some.injEq] at h1
+        rw [← h1]
+    have := history_refines cfg ops r m1 h3 hsort
     rw [h2] at this
-    obtain ⟨t1, t2, t3, _, t5, t6⟩ := this
-    exact ⟨t1, t2, t3, by rw [t5]; exact h6, by rw [t6]; exact h7⟩
+    obtain ⟨t1, t2, t3, _, _, t6⟩ := this
+    obtain ⟨o1, _⟩ := Arr.run_led cfg ops r m1 h3 hsort
+    rw [htr] at o1
+    exact ⟨t1, t2, t3, by rw [o1]; exact h6, by rw [t6]; exact h7, htr⟩
+
+/-- **no call of a history is blocked on an allocator that never refuses**, as long as the sizes
+reached stay below the byte-size limit and the growth function does not overshoot it on the
+capacities at which a growth step can happen (those below `size + |ops|`).  This pins the `blocked`
+oracle of `history_refines` down: under these conditions it is `none` everywhere, and the array is
+observationally the ideal list (`history_ideal`). -/
+theorem history_unblocked (cfg : Cfg) (ops : List Op) (a : Arr) (m : Mem) (hinv : a.Inv) (hs : m.sched = [])
+    (hsort : ∀ xs, (cfg.sortFn xs).length = xs.length)
+    (hB : a.size + ops.length ≤ Gen.CC_MAX_ELEMENTS / 8)
+    (hg : ∀ c, c < a.size + ops.length → a.grow c ≤ Gen.CC_MAX_ELEMENTS / 8) :
+    ∀ o ∈ (a.run cfg ops m).1, o.blocked = none := by
+  induction ops generalizing a m with
+  | nil => intro o ho; simp [Arr.run] at ho
+  | cons op ops ih =>
+    obtain ⟨_, s2, s3, s4, _, _, _, b1, b2⟩ := step_refines cfg a op m hinv hsort
+    simp only [List.length_cons] at hB hg
+    have hnb : (a.step cfg op m).1.blocked = none := by
+      have hcases : ∀ o : Out, o.blocked = none ∨ o.blocked = some .errAlloc ∨ o.blocked = some .errMaxCapacity := by
+        intro o; unfold Out.blocked; split
+        · rename_i h; rcases h with h | h <;> simp [h]
+        · exact Or.inl rfl
+      rcases hcases (a.step cfg op m).1 with h | h | h
+      · exact h
+      · have := b1 h
+        rw [(Arr.allocT_never_refuses m a.triple hs).1] at this; simp at this
+      · obtain ⟨hl, hf⟩ := b2 h
+        exfalso
+        rcases hl with hl | hl
+        · have := hinv.2.2.2; have := Arr.max8_lt; omega
+        · have hc := hg a.capacity (by omega)
+          unfold Arr.newCapacity at hl
+          simp only at hl
+          have := hinv.2.2.2
+          split at hl
+          · split at hl <;> omega
+          · omega
+    have hsz : (a.step cfg op m).2.1.size ≤ a.size + 1 := by
+      have h1 : (a.step cfg op m).2.1.size = (a.step cfg op m).2.1.abs.length := by simp
+      rw [h1, s2]
+      have := Arr.spec_step_length cfg a.abs op (a.step cfg op m).1.blocked hsort
+      simpa using this
+    intro o ho
+    simp only [Arr.run, List.mem_cons] at ho
+    rcases ho with ho | ho
+    · rw [ho]; exact hnb
+    · exact ih (a.step cfg op m).2.1 (a.step cfg op m).2.2 s4 (Arr.step_sched_nil cfg a op m hinv hs)
+        (by omega) (fun c hc => by rw [s3]; exact hg c (by omega)) o ho
+
+/-- consequently such a history is observationally the ideal list, with nothing else to say -/
+theorem history_ideal_of_nonrefusing (cfg : Cfg) (ops : List Op) (a : Arr) (m : Mem) (hinv : a.Inv) (hs : m.sched = [])
+    (hsort : ∀ xs, (cfg.sortFn xs).length = xs.length)
+    (hB : a.size + ops.length ≤ Gen.CC_MAX_ELEMENTS / 8)
+    (hg : ∀ c, c < a.size + ops.length → a.grow c ≤ Gen.CC_MAX_ELEMENTS / 8) :
+    (a.run cfg ops m).1 = (Spec.Seq.run cfg a.abs ops (List.replicate ops.length none)).1 ∧
+    (a.run cfg ops m).2.1.abs = (Spec.Seq.run cfg a.abs ops (List.replicate ops.length none)).2 :=
+  history_ideal cfg ops a m hinv hsort (history_unblocked cfg ops a m hinv hs hsort hB hg)
+
+/-- a dischargeable side condition for the progress theorems: a small array whose growth function
+does not overshoot the byte-size limit at its capacity is not at the limit -/
+theorem not_atLimit (a : Arr) (hc : a.capacity < Gen.CC_MAX_ELEMENTS / 8)
+    (hg : a.grow a.capacity ≤ Gen.CC_MAX_ELEMENTS / 8) : ¬ a.AtLimit := by
+  intro hl
+  rcases hl with hl | hl
+  · have := Arr.max8_lt; omega
+  · unfold Arr.newCapacity at hl
+    simp only at hl
+    split at hl
+    · split at hl <;> omega
+    · omega
 
 /-! ## The property in its own vocabulary (facts about the ideal list) -/
 
@@ -180,8 +263,19 @@ theorem spec_contains_add (xs : List Nat) (x y : Nat) :
   simp only [Spec.Seq.contains, Spec.Seq.add, List.count_append, List.count_cons, List.count_nil, beq_iff_eq]
   omega
 
-/-! ## Non-vacuity: a partly filled block with a slow growth function satisfies the invariant -/
-example : (Arr.mk 3 4 [7, 0, 7, 99] (fun c => c * 11 / 10)).Inv ∧
-    (Arr.mk 3 4 [7, 0, 7, 99] (fun c => c * 11 / 10)).abs = [7, 0, 7] := by decide
+/-! ## Non-vacuity: a partly filled block with a slow growth function satisfies the invariant, and a
+concrete history under a schedule with one refusal runs as the theorems say -/
+example : (Arr.mk 3 4 [7, 0, 7, 99] (fun c => c * 11 / 10) .conf).Inv ∧
+    (Arr.mk 3 4 [7, 0, 7, 99] (fun c => c * 11 / 10) .conf).abs = [7, 0, 7] := by decide
+
+/-- capacity 1, growth function `id` (every growth step falls back to `capacity + 1`), the second
+allocator call refused: trim, three appends (the third one blocked), an insertion, a removal, a
+reversal -/
+example :
+    let a : Arr := Arr.mk 0 1 [0] id .conf
+    let cfg : Cfg := ⟨fun v => v % 2 == 0, fun x y => (x : Int) - y, fun x y => x + y, id⟩
+    let r := a.run cfg [.trimCapacity, .add 5, .add 6, .add 6, .addAt 9 0, .removeAt 1, .reverse] { sched := [false, true], live := 2 }
+    a.Inv ∧ r.2.1.abs = [6, 9] ∧ r.1.map Out.blocked = [none, none, none, some .errAlloc, none, none, none] ∧
+    r.2.2.live = 2 ∧ r.2.2.fault = false ∧ r.2.1.Inv := by decide
 
 end CC.Properties.C01
